@@ -644,7 +644,7 @@ def check(src, rep, tier):
                        'spelling kept, KeyError/ValueError raised with an unchanged heap.  AST rules: every Deb822Dict access to its internal '
                        'structures uses _strI(key); hash/eq of the case-insensitive string agree.  (R5) copy protocol; __reduce__ after every '
                        're-ordering hands over the keys in list order.  (R6) sort_fields() without a key sorts by lower-cased name.')
-    rep.not_decided = ['equality with the reference model over arbitrary histories (follows by induction, not executed)', 'copy and dump/parse cycles (C02)']
+    rep.not_decided = ['equality with the reference model over arbitrary histories (follows by induction, not executed)', 'dump/parse cycles (C02)', 'copy.copy (shallow by definition)']
     rep.need('C09.R1', 6)
     rep.need('C09.R2', 12)
     rep.need('C09.R3', 40)
